@@ -555,9 +555,11 @@ func runCheck(id, tier string) int {
 	if len(samples) == 0 {
 		cov["samples"] = []any{"(no sample recorded)"}
 	}
-	os.MkdirAll(filepath.Join(verifDir, "evidence"), 0o755)
-	eb, _ := json.MarshalIndent(ev, "", " ")
-	os.WriteFile(filepath.Join(verifDir, "evidence", id+".json"), eb, 0o644)
+	if os.Getenv("VF_NO_EVIDENCE") == "" { // selftest runs against mutated scratch trees must not overwrite the evidence
+		os.MkdirAll(filepath.Join(verifDir, "evidence"), 0o755)
+		eb, _ := json.MarshalIndent(ev, "", " ")
+		os.WriteFile(filepath.Join(verifDir, "evidence", id+".json"), eb, 0o644)
+	}
 	fmt.Printf("%s tier=%s: %d executions, %d enumerated cases, %d distinct outcomes, %d violations, %d known findings re-observed, exhaustive=%v, %.1fs\n",
 		id, tier, execs, cases, len(outcomesSeen), nViol, len(knownSeen), len(capped) == 0, time.Since(t0).Seconds())
 	return exit
@@ -607,6 +609,9 @@ type replayFile struct {
 
 func writeReplay(id, tier string, v *violation, runs []run) string {
 	dir := filepath.Join(verifDir, "replays", id)
+	if os.Getenv("VF_NO_EVIDENCE") != "" {
+		dir = filepath.Join(os.TempDir(), "vf-selftest-replays", id)
+	}
 	os.MkdirAll(dir, 0o755)
 	h := sha256.Sum256([]byte(v.Key))
 	path := filepath.Join(dir, hex.EncodeToString(h[:6])+".json")
